@@ -248,6 +248,21 @@ class Evaluator(object):
         st.locals[s.name] = ("localfunc", s.lineno, s.name)
 
     def st_Return(self, s, st, frame):
+        q = s.value
+        if (isinstance(q, ast.Call) and isinstance(q.func, ast.Name) and q.func.id in ("all", "any") and len(q.args) == 1 and not q.keywords
+                and isinstance(q.args[0], (ast.GeneratorExp, ast.ListComp)) and len(q.args[0].generators) == 1 and not q.args[0].generators[0].ifs
+                and any(isinstance(n_, ast.Call) for n_ in ast.walk(q.args[0].elt))):
+            # return all(f(x) for x in xs)   is   for x in xs: if not f(x): return False   followed by   return True   (any: dually)
+            gen = q.args[0].generators[0]
+            is_all = q.func.id == "all"
+            test = ast.UnaryOp(op=ast.Not(), operand=q.args[0].elt) if is_all else q.args[0].elt
+            loop = ast.For(target=gen.target, iter=gen.iter, body=[ast.If(test=test, body=[ast.Return(value=ast.Constant(value=not is_all))], orelse=[])], orelse=[])
+            tail = ast.Return(value=ast.Constant(value=is_all))
+            for n_ in (loop, tail):
+                ast.copy_location(n_, s)
+                ast.fix_missing_locations(n_)
+            self.exec_block([loop, tail], st, frame)
+            return
         v = self.ev(s.value, st, frame) if s.value is not None else NONE
         self.emit(Event("return", value=v), s, st, frame)
         frame.exits.append((st.copy(), v))
@@ -689,7 +704,8 @@ class Evaluator(object):
             self._sub_trace = []
             try:
                 self.exec_block(s.body, probe, probe_frame)
-                miss = [("cmp", "notin", k_, d_) for d_, k_ in self._sub_trace]
+                # positional indexers do not raise KeyError
+                miss = [("cmp", "notin", k_, d_) for d_, k_ in self._sub_trace if not (isinstance(d_, tuple) and len(d_) == 3 and d_[0] == "attr" and d_[2] in ("iloc", "values", "iat"))]
                 if miss and len(miss) <= 6:
                     atoms[0] = miss[0] if len(miss) == 1 else ("or",) + tuple(miss)
             except Exception:
@@ -741,6 +757,10 @@ class Evaluator(object):
 
         def expr_ok(val):
             for n_ in ast.walk(val):
+                if (isinstance(n_, ast.Call) and isinstance(n_.func, ast.Attribute) and n_.func.attr == "get_loc" and isinstance(n_.func.value, ast.Attribute)
+                        and n_.func.value.attr == "index" and len(n_.args) == 1 and not n_.keywords):
+                    seen_sub[0] = True  # index.get_loc(label): KeyError exactly when the label is not in the index
+                    continue
                 if not isinstance(n_, ok_expr):
                     return False
                 if isinstance(n_, ast.Subscript):
@@ -818,7 +838,16 @@ class Evaluator(object):
         return ("opaque", repr(v))
 
     def ex_JoinedStr(self, e, st, frame):
-        return ("opaque", "fstring")
+        out = []
+        for v_ in e.values:
+            if isinstance(v_, ast.Constant) and isinstance(v_.value, str):
+                if v_.value:
+                    out.append(("str", v_.value))
+            elif isinstance(v_, ast.FormattedValue) and v_.format_spec is None and v_.conversion in (-1, 115):
+                out.append(self.ev(v_.value, st, frame))
+            else:
+                return ("opaque", "fstring")
+        return ("strcat",) + tuple(out)
 
     def ex_Name(self, e, st, frame):
         return self.lookup(e.id, st, frame)
@@ -845,6 +874,20 @@ class Evaluator(object):
         for (m2, n2), f2 in self.prog.functions.items():
             if n2 == name and m2 != mod:
                 return ("func", name)
+        # a numeric module constant imported by name from another module of the package (from bt.core import PAR)
+        tree_ = self.prog.trees.get(mod) if hasattr(self.prog, "trees") else None
+        if tree_ is not None:
+            for st_ in getattr(tree_, "body", []):
+                if isinstance(st_, ast.ImportFrom) and any((a_.asname or a_.name) == name for a_ in st_.names):
+                    orig = [a_.name for a_ in st_.names if (a_.asname or a_.name) == name][0]
+                    for (m2, n2), cnode2 in self.prog.constants.items():
+                        if n2 == orig and m2 != mod and (st_.module or "").replace(".", "/") in m2.replace(".py", ""):
+                            try:
+                                v = ast.literal_eval(cnode2)
+                                if isinstance(v, (int, float)) and not isinstance(v, bool):
+                                    return sym.num(v)
+                            except Exception:
+                                pass
         if name in ("deepcopy",):
             return ("func", "deepcopy")
         if name in PURE_MODULES or name in ("bt", "cy", "cython"):
@@ -1114,12 +1157,29 @@ class Evaluator(object):
         return ("opaque", "unary")
 
     def ex_BinOp(self, e, st, frame):
+        if isinstance(e.op, ast.Mod) and isinstance(e.left, ast.Constant) and isinstance(e.left.value, str):
+            # "a%sb" % x  /  "a%sb%sc" % (x, y): the text pieces and the values formatted into them (same form as an f-string)
+            pieces = _percent_pieces(e.left.value)
+            vals = e.right.elts if isinstance(e.right, ast.Tuple) else [e.right]
+            if pieces is not None and len(pieces) == len(vals) + 1 and not any(isinstance(v_, ast.Starred) for v_ in vals):
+                out = []
+                for k_, v_ in enumerate(vals):
+                    if pieces[k_]:
+                        out.append(("str", pieces[k_]))
+                    out.append(self.ev(v_, st, frame))
+                if pieces[-1]:
+                    out.append(("str", pieces[-1]))
+                return ("strcat",) + tuple(out)
         a = self.ev(e.left, st, frame)
         b = self.ev(e.right, st, frame)
         return (_binop(e.op), a, b)
 
     def ex_BoolOp(self, e, st, frame):
         is_and = isinstance(e.op, ast.And)
+        if not is_and and len(e.values) == 2 and _empty_container_literal(e.values[1]):
+            # x or []   (the default-for-None idiom): x unless it is None - an empty x and a fresh empty container are the same thing to every reader
+            x = self.ev(e.values[0], st, frame)
+            return ("ite", ("cmp", "is", x, NONE), self.ev(e.values[1], st, frame), x)
         if not any(isinstance(n, ast.Call) for x in e.values[1:] for n in ast.walk(x)):
             vals = [self.ev(x, st, frame) for x in e.values]
             return ("and" if is_and else "or",) + tuple(vals)
@@ -1216,9 +1276,9 @@ class Evaluator(object):
         # effects of the element expression on the heap have been emitted as events; a comprehension
         # used as a statement may have written loop-invariant slots
         if as_stmt:
-            for k, val in inner.heap.items():
-                if k not in st.heap or st.heap[k] is not val:
-                    st.heap[k] = val
+            # the heap after the loop, including what its calls may have clobbered (forgotten slots and advanced epochs)
+            st.heap, st.sub = inner.heap, inner.sub
+            st.epoch, st.epoch_all = inner.epoch, inner.epoch_all
         return v
 
     # ---- calls -----------------------------------------------------------------------------------
@@ -1286,6 +1346,13 @@ class Evaluator(object):
                 return self.call_function(fi, None, None, args, kwargs, st, frame, node, recv=None)
             if name == "getattr" and len(args) == 2 and not kwargs and args[1][0] == "str":
                 return self.read_attr(args[0], args[1][1], st, frame, node)  # getattr(x, "name") is x.name
+            if name == "getattr" and len(args) == 3 and not kwargs and args[1][0] == "str":
+                # getattr(x, "name", d)   is   x.name if hasattr(x, "name") else d
+                c_ = ("call", "hasattr", (args[0], args[1]), ())
+                s1, s2, n1, n2 = self._fork(st, c_)
+                v1 = self.read_attr(args[0], args[1][1], s1, frame, node) if s1.alive is True else NONE
+                self.merge_into(st, c_, s1, s2, n1, n2)
+                return ("ite", c_, v1, args[2])
             if name == "dict" and len(args) == 1 and list(kwargs) == ["**"]:
                 return ("dictmerge", args[0], kwargs["**"])  # dict(a, **b): b wins
             return ("call", name, tuple(args), tuple(sorted(kwargs.items())))
@@ -1324,6 +1391,14 @@ class Evaluator(object):
             dotted = "%s.%s" % (recv[1], name)
             if dotted == "copy.deepcopy":
                 dotted = "deepcopy"
+            if dotted in ("pd.DataFrame", "pd.Series", "pandas.DataFrame", "pandas.Series") and isinstance(node, ast.Call):
+                # the fill value decides the dtype of the table: an integer literal gives integer columns (in-place writes into them truncate)
+                args, kwargs = list(args), dict(kwargs)
+                if node.args and args and not isinstance(node.args[0], ast.Starred):
+                    args[0] = _mark_int_fill(node.args[0], args[0])
+                for kw_ in node.keywords:
+                    if kw_.arg == "data" and "data" in kwargs:
+                        kwargs["data"] = _mark_int_fill(kw_.value, kwargs["data"])
             return ("call", dotted, tuple(args), tuple(sorted(kwargs.items())))
         if t == "func":
             return ("call", "%s.%s" % (recv[1], name), tuple(args), tuple(sorted(kwargs.items())))
@@ -1403,6 +1478,8 @@ class Evaluator(object):
                 item = args[0] if name == "append" else ("comp", "list", ("elem", args[0], len(frame.loops)), args[0], ())
                 loop.appends.setdefault(src_name, []).append((item, tuple(l for l in rel if not (isinstance(l[0], tuple) and l[0] and l[0][0] == "impl")), name, recv))
                 return NONE
+        if name == "get_loc" and len(args) == 1 and not kwargs and getattr(self, "_sub_trace", None) is not None and recv[0] == "attr" and recv[2] == "index":
+            self._sub_trace.append((recv, args[0]))
         if (name == "setdefault" and not kwargs and len(args) == 2 and recv[0] == "fld" and recv[2] in ("temp", "perm") and isinstance(node, ast.Call)
                 and isinstance(node.func, ast.Attribute) and len(node.args) == 2 and all(_simple_pure_expr(a_) for a_ in node.args) and _simple_pure_expr(node.func.value)):
             # d.setdefault(k, v)   is   if k not in d: d[k] = v   followed by   d[k]
@@ -1415,7 +1492,7 @@ class Evaluator(object):
                 ast.fix_missing_locations(n_)
             self.st_If(stmt, st, frame)
             return self.ev(sub_load, st, frame)
-        if name == "get" and not kwargs and len(args) in (1, 2) and recv[0] == "fld" and recv[2] in ("temp", "perm"):
+        if name == "get" and not kwargs and len(args) in (1, 2) and ((recv[0] == "fld" and recv[2] in ("temp", "perm")) or (recv[0] == "param" and str(recv[1]).startswith("**"))):
             # d.get(k[, default]) on the plain dicts a strategy carries: d[k] when k is present, the default otherwise
             stored = st.sub.get((canon(recv), canon(args[0])))
             inner = stored if stored is not None else ("sub", recv, args[0])
@@ -1766,6 +1843,42 @@ def _conj(lits):
     if len(parts) == 1:
         return parts[0]
     return ("and",) + tuple(parts)
+
+
+def _percent_pieces(template):
+    """['a', 'b', 'c'] for 'a%sb%sc' (only plain %s / %d conversions; '%%' is a literal percent), else None"""
+    import re
+
+    if re.search(r"%(?![sd%])", template):
+        return None
+    parts = re.split(r"%[sd]", template.replace("%%", "\0"))
+    return [p_.replace("\0", "%") for p_ in parts]
+
+
+def _empty_container_literal(n):
+    if isinstance(n, (ast.List, ast.Tuple, ast.Set)):
+        return not n.elts
+    if isinstance(n, ast.Dict):
+        return not n.keys
+    return isinstance(n, ast.Call) and isinstance(n.func, ast.Name) and n.func.id in ("list", "dict", "tuple", "set") and not n.args and not n.keywords
+
+
+def _is_int_literal(n):
+    return isinstance(n, ast.Constant) and isinstance(n.value, int) and not isinstance(n.value, bool)
+
+
+def _mark_int_fill(n, v):
+    """int(c) for an integer literal c used as the fill value of a table (directly or as the values of a dict literal)"""
+    if _is_int_literal(n):
+        return ("call", "int", (v,), ())
+    if isinstance(n, ast.Dict) and isinstance(v, tuple) and v and v[0] == "dict" and len(v) - 1 == len(n.values):
+        items = []
+        for vn, item in zip(n.values, v[1:]):
+            if _is_int_literal(vn) and isinstance(item, tuple) and len(item) == 3 and item[0] == "tuple":
+                item = ("tuple", item[1], ("call", "int", (item[2],), ()))
+            items.append(item)
+        return ("dict",) + tuple(items)
+    return v
 
 
 def _list_value(v):
